@@ -299,6 +299,32 @@ def run(rep):
     rep.info['call_sites_scanned'] = n_calls
     rep.info['hash_container_call_sites'] = n_hash_calls
     rep.floor('hash-container call sites seen (membership sets exist in the crate)', n_hash_calls, 4)
+    if rep.tier == 'thorough':
+        clippy_crossref(rep)
+
+
+def clippy_crossref(rep):
+    """thorough tier: clippy's configured who-may-call lint (disallowed_methods / disallowed_types) generated from the same lists, as an
+    independent cross-reference (report only: the MIR rule decides)"""
+    import os, re, tempfile
+    from common import REPO, WORK, run
+    d = tempfile.mkdtemp(prefix='vclippy-')
+    try:
+        methods = ['std::env::var', 'std::env::var_os', 'std::env::vars', 'std::env::current_dir', 'std::env::temp_dir', 'std::env::args', 'std::time::Instant::now',
+                   'std::time::SystemTime::now', 'std::process::id', 'std::thread::current', 'std::fs::read', 'std::fs::read_to_string', 'std::fs::write', 'std::fs::File::open',
+                   'std::fs::File::create', 'std::process::Command::new']
+        with open(os.path.join(d, 'clippy.toml'), 'w') as fh:
+            fh.write('disallowed-methods = [\n' + ''.join(f'  {{ path = "{m}", reason = "C18" }},\n' for m in methods) + ']\n')
+            fh.write('disallowed-types = [ { path = "std::sync::OnceLock", reason = "C18" }, { path = "std::sync::LazyLock", reason = "C18" }, { path = "std::cell::RefCell", reason = "C18" } ]\n')
+        rc, out = run('cargo +nightly clippy --offline -p wgsl_to_wgpu --lib -- -A clippy::all -W clippy::disallowed_methods -W clippy::disallowed_types', cwd=REPO,
+                      env={'CLIPPY_CONF_DIR': d, 'CARGO_TARGET_DIR': os.path.join(WORK, 'clippy-target')}, timeout=1800)
+        hits = re.findall(r'warning: use of a disallowed (?:method|type) `([^`]+)`', out)
+        rep.info['clippy_crossref'] = {'rc': rc, 'disallowed_uses': hits, 'note': 'Command::new is expected once (the formatter); any other entry should also be reported by rules R2/R3'}
+    except Exception as ex:
+        rep.info['clippy_crossref'] = {'error': repr(ex)}
+    finally:
+        import shutil
+        shutil.rmtree(d, ignore_errors=True)
 
 
 def op_local_dest(t):
